@@ -151,6 +151,14 @@ class MultiNestedTensor(_MultiTensor):
         assert start >= 0
         assert length > 0
         end = start + length
+        if self.num_rows == 0:
+            # No cells to gather, only the number of columns changes.
+            return MultiNestedTensor(
+                num_rows=0,
+                num_cols=length,
+                values=self.values[:0],
+                offset=self.offset[:1],
+            )
         if start == 0:
             assert end < self.num_cols
             offset_mat = self.offset[:-1].reshape(self.num_rows, self.num_cols)
